@@ -72,6 +72,7 @@ def shards(tier, seed):
         out.append(("warm", cfg, "containers"))
         out.append(("objhist", cfg))
         out.append(("checkbind", cfg))
+        out.append(("unitclosure", cfg))
         if cfg != "autoreduce":
             out.append(("qclosure", cfg))
         if tier != "quick":
@@ -538,6 +539,66 @@ def run_object_histories(acc, cfg):
     acc.sample({"clause": "object-history", "cfg": cfg, "example": ["check('[length]')", "q /= Q(2, 's')", "q.ito_root_units()", "check('[length]') must now be False"]})
 
 
+def run_unit_closure(acc, cfg):
+    """'preserved by products, quotients and powers' at the level of Unit OBJECTS: every ordered pair of a unit-object
+    alphabet, each operand either fresh or already asked for its dimensionality (memo filled), under * / ** and the reflected
+    forms with a number: dimensionality, dimensionless and both is_compatible_with predicates of the result follow the model"""
+    M = model()
+    ureg = get_reg(cfg)
+    names = ["meter", "second", "kilometer", "hour", "newton", "gram", "hertz", "liter", "radian", "meter / second", ""]
+    probes = ["meter", "second", "meter/second", "second/meter", "kilometer/hour", "meter*second", "hertz", "newton", "meter**2", ""]
+    pd = {p: dimkey(M.dim_of_units(dict(defs.parse_expr(p).units)) if p else {}) for p in probes}
+
+    def mk(n, warm):
+        u = ureg.Unit(n)
+        if warm:
+            u.dimensionality, u.dimensionless, u.is_compatible_with("meter")  # noqa: B018
+        return u
+
+    def verify(r, want, case):
+        acc.ev()
+        o = outcome_of(lambda: dimkey({k: Fraction(v).limit_denominator(1000) for k, v in dict(r.dimensionality).items()}))
+        if o != ("ok", want):
+            acc.violation(["unit-closure", "Unit.dimensionality", "differs-from-dimension-vector", cfg], case, want, o)
+            return
+        o = outcome_of(lambda: r.dimensionless)
+        if o != ("ok", want == dimkey({})):
+            acc.violation(["unit-closure", "Unit.dimensionless", "predicate-disagrees-with-dimension-vectors", cfg], case, want == dimkey({}), o)
+        for p in probes:
+            for api, fn in (("Unit.is_compatible_with", lambda: r.is_compatible_with(ureg.Unit(p))), ("registry.is_compatible_with", lambda: ureg.is_compatible_with(r, ureg.Unit(p)))):
+                o = outcome_of(fn)
+                if o != ("ok", pd[p] == want):
+                    acc.violation(["unit-closure", api, "predicate-disagrees-with-dimension-vectors", cfg], dict(case, probe=p), pd[p] == want, o)
+                    return
+
+    for na, nb in itertools.product(names, repeat=2):
+        da = M.dim_of_units(dict(defs.parse_expr(na).units)) if na else {}
+        db = M.dim_of_units(dict(defs.parse_expr(nb).units)) if nb else {}
+        for wa, wb in itertools.product((False, True), repeat=2):
+            a, b = mk(na, wa), mk(nb, wb)
+            acc.nt(("unit-closure", cfg, na, nb, wa, wb))
+            case = {"cfg": cfg, "a": na, "b": nb, "a_asked_before": wa, "b_asked_before": wb}
+            mul = {k: v for k, v in ((k, da.get(k, 0) + db.get(k, 0)) for k in set(da) | set(db)) if v}
+            div = {k: v for k, v in ((k, da.get(k, 0) - db.get(k, 0)) for k in set(da) | set(db)) if v}
+            verify(a * b, dimkey(mul), dict(case, op="a * b"))
+            verify(a / b, dimkey(div), dict(case, op="a / b"))
+            # the operands themselves still answer for what they are
+            verify(a, dimkey(da), dict(case, op="a after a / b"))
+            verify(b, dimkey(db), dict(case, op="b after a / b"))
+    for na in names:
+        da = M.dim_of_units(dict(defs.parse_expr(na).units)) if na else {}
+        for wa in (False, True):
+            for e in (-2, -1, 0, 1, 2, Fraction(1, 2)):
+                a = mk(na, wa)
+                case = {"cfg": cfg, "a": na, "a_asked_before": wa, "op": f"a ** {e}"}
+                ee = e if isinstance(e, int) else 0.5
+                verify(a ** ee, dimkey({k: v * e for k, v in da.items() if e}), case)
+            a = mk(na, wa)
+            verify(1 / a, dimkey({k: -v for k, v in da.items()}), {"cfg": cfg, "a": na, "a_asked_before": wa, "op": "1 / a"})
+    acc.outcome("unit-closure")
+    acc.sample({"clause": "unit-closure", "cfg": cfg, "a": "meter", "b": "second", "a_asked_before": True, "b_asked_before": True, "op": "a / b"})
+
+
 def run_check_binding(acc, cfg):
     """ureg.check compares every argument with the dimension declared for ITS parameter, however the call binds them:
     3 parameters (two with defaults) x every positional / keyword-order / omitted call form x every assignment of a
@@ -771,6 +832,8 @@ def run_shard(acc, shard, tier, seed):
         run_object_histories(acc, shard[1])
     elif kind == "checkbind":
         run_check_binding(acc, shard[1])
+    elif kind == "unitclosure":
+        run_unit_closure(acc, shard[1])
     else:
         raise core.HarnessError(f"unknown shard {shard}")
 
@@ -809,6 +872,8 @@ def replay(rec):
             run_containers(acc, cfg, case["block"][0], case["block"][1], rec.get("tier", "quick"))
     elif site[0] == "object-history":
         run_object_histories(acc, cfg)
+    elif site[0] == "unit-closure":
+        run_unit_closure(acc, cfg)
     elif site[0] == "decorator":
         run_check_binding(acc, cfg)
     elif site[0] == "closure" and site[1].startswith("Quantity"):
@@ -825,3 +890,4 @@ def replay(rec):
 
 MANIFEST = {'category': 'exploration', 'technique': 'bounded exhaustive enumeration of unit pairs / spellings / compound containers / dimension specs against an independent definition-file reader (R1) — small-scope model checking of the compatibility relation', 'text': "All ordered pairs of the multiplicative canonical units of the bundled registry (~150k), every defined spelling alone and prefixed/pluralised, every ordered pair of 1-2 entry compound containers over a 7-unit alphabet with integer and half-integer exponents, all triples of a 40-container sub-alphabet (equivalence laws, closure under * / **), every declared dimension x exponent alphabet as a dimension spec through get_dimensionality / Quantity.check / ureg.check, compatible-unit listings of every unit, products, quotients and powers of QUANTITIES over the compound alphabet in a float registry and in an auto-reducing exact (Fraction) registry — the result must have the product of the dimension vectors and stay convertible to the plain product unit —, the predicates of ONE quantity object after every chain of <= 2 in-place operations (*=, /=, **=, ito_root/base/reduced_units, ito) against the units it then carries, a history clause (every ordered pair of the compound alphabet — thorough: of the canonical units too — converted twice in ONE registry, so that each pair is judged again after every other pair has warmed the registry's memos), and 54 generated registries with derived-dimension DAGs: each conversion must return a number exactly when R1's base-dimension vectors agree and raise DimensionalityError otherwise, and each predicate must equal that relation. thorough repeats everything for Fraction, Decimal, case-insensitive and auto_reduce_dimensions registries.", 'note': 'Trusted: R1 (mc/ref/defs.py, no pint imports; cross-checked against pint on the unchanged tree). Strings with several non-equivalent prefix readings are left to C08; offset/log units to C06; compounds with more than 2 (pairs) / 3 factors and units added after construction are outside the bound.', 'ref': 'DESIGN.md §4 C01'}
 MANIFEST["text"] += ' Listings restricted to a named group are interleaved with unrestricted ones (for every declared group and every dimension class it has a member in: unrestricted, restricted, unrestricted, restricted to every other group, unrestricted, default system): a listing never changes a later listing.'
+MANIFEST["text"] += " Unit objects: every ordered pair of an 11-unit-object alphabet, each operand fresh or already asked for its dimensionality, under * and /, and each under ** (6 exponents) and 1/u: dimensionality, dimensionless and both is_compatible_with predicates of the result (10 probes) follow the model, and the operands still answer for themselves."
